@@ -65,7 +65,7 @@ def symbolize(exe, text):
 def run_check(prop, tier):
     spec = CHECKS[prop]
     runs = spec[tier] if tier in spec else spec["quick"]
-    budget = float(os.environ.get("VERIF_BUDGET_S", spec.get("budget", {}).get(tier, 100 if tier == "quick" else 900)))
+    budget = float(os.environ.get("VERIF_BUDGET_S", spec.get("budget", {}).get(tier, 150 if tier == "quick" else 1500)))
     seed = int(os.environ.get("VERIF_SEED", "0") or 0)
     t0 = time.time()
     outdir = os.path.join(OUT, prop)
